@@ -18,6 +18,8 @@
 (*         "comment"  # <text>                  comment-only line                      *)
 (*         "blank"                                                                     *)
 (*         "noeq"     <r>                       malformed: no '='                      *)
+(*         "badmax"   MaxTime = r               malformed value (not an integer)       *)
+(*         "baderr"   Err_Tolerance = r         malformed value (not a number)         *)
 (*         "multieq"  v = r = 2                 malformed: several '='                 *)
 (*   v     left-hand variable ("" when there is none)                                  *)
 (*   r     right-hand-side id = the right-hand side written without white space        *)
@@ -51,7 +53,7 @@ CONSTANTS
     AsFound_MarkerTestedOnRawLine
 
 Kinds == {"eq", "lag1", "lag2", "lag3", "ic", "maxtime", "errtol", "usert",
-          "marker", "comment", "blank", "noeq", "multieq"}
+          "marker", "comment", "blank", "noeq", "multieq", "badmax", "baderr"}
 (* sep*: the free text holds a character that some line-splitting routines take for a line  *)
 (* end although it is not '\n' (form feed, vertical tab, FS/GS/RS, NEL, U+2028, U+2029, a bare *)
 (* CR - the driver goes through all of them), followed by equation-like (sepeq), initial-      *)
@@ -72,6 +74,10 @@ OneEq     == {"eq", "lag1", "lag2", "lag3", "ic", "maxtime", "errtol", "usert"} 
 LagKinds  == {"lag1", "lag2", "lag3"}
 Params    == {"maxtime", "errtol"}
 Malformed == {"noeq", "multieq"}
+(* a run-parameter line whose value is not a value of the parameter: MaxTime = 2.5 / 25e-1 / *)
+(* CAT (not an integer literal), Err_Tolerance = CAT (not a number).  The code reports it    *)
+(* by raising ValueError: ParseString stops there (mode "raised"), no later line is read.    *)
+BadParams == {"badmax", "baderr"}
 
 IsForm(f) ==
     /\ DOMAIN f = {"kind", "v", "r", "cc", "sp"}
@@ -80,8 +86,8 @@ IsForm(f) ==
     \* comment-only lines that merely mention the marker word are not generated
     /\ f.kind = "comment" => f.cc \notin ({"none", "sepexo"} \cup MarkerWordClasses)
     /\ f.kind = "usert" => f.v = "t"
-    /\ f.kind = "maxtime" => f.v = "MaxTime"
-    /\ f.kind = "errtol" => f.v = "Err_Tolerance"
+    /\ f.kind \in {"maxtime", "badmax"} => f.v = "MaxTime"
+    /\ f.kind \in {"errtol", "baderr"} => f.v = "Err_Tolerance"
 
 ASSUME \A f \in LineForms \cup FirstForms : IsForm(f)
 ASSUME AsFound_MarkerTestedOnRawLine \in BOOLEAN /\ MaxLines \in Nat /\ MaxBlocks \in Nat
@@ -120,7 +126,9 @@ IcPut(ic, v, r) == { e \in ic : e.var # v } \cup { Entry(v, r) }
 Done(s, c) == [s EXCEPT !.cls = Append(@, c)]
 
 LineOp(s, f) ==
-    IF f.kind = "marker"
+    IF s.mode = "raised"
+    THEN Done(s, "skipped")                                      \* ParseString has raised already
+    ELSE IF f.kind = "marker"
     THEN Done([s EXCEPT !.mode = "exogenous"], "marker")
     ELSE IF AsFound_MarkerTestedOnRawLine /\ f.cc \in MarkerWordClasses
     THEN Done([s EXCEPT !.mode = "exogenous"], "dropped")        \* the defect
@@ -129,6 +137,7 @@ LineOp(s, f) ==
            [] f.kind = "multieq" -> Done([s EXCEPT !.msgs = Append(@, "multi")], "none")
            [] f.kind = "maxtime" -> Done([s EXCEPT !.MaxTime = f.r], "param")
            [] f.kind = "errtol"  -> Done([s EXCEPT !.ErrTol = f.r], "param")
+           [] f.kind \in BadParams -> Done([s EXCEPT !.mode = "raised"], "reported")
            [] OTHER ->
                 LET s1 == IF IsUserT(f) THEN [s EXCEPT !.foundT = TRUE] ELSE s
                 IN IF s.mode = "exogenous"
@@ -139,7 +148,7 @@ LineOp(s, f) ==
                    THEN Done([s1 EXCEPT !.Lagged = Append(@, Entry(f.v, f.r))], "lag")
                    ELSE Done([s1 EXCEPT !.Endogenous = Append(@, Entry(f.v, f.r))], "sim")
 
-FinishOp(s) == IF s.foundT THEN s ELSE [s EXCEPT !.Endogenous = Append(@, DefaultT)]
+FinishOp(s) == IF s.foundT \/ s.mode = "raised" THEN s ELSE [s EXCEPT !.Endogenous = Append(@, DefaultT)]
 
 (* a further ParseString call on the same object starts from scratch: nothing that an   *)
 (* earlier block put into the object survives (the classification is a function of the *)
@@ -252,15 +261,22 @@ VarsOf(s) == [i \in 1..Len(s) |-> s[i].var]
 Range(s) == { s[i] : i \in 1..Len(s) }
 CountVar(s, v) == Cardinality({ i \in 1..Len(s) : s[i].var = v })
 
+(* a malformed run-parameter value ends the call: only the lines before it count *)
+FirstBad(h) == IF \E i \in 1..Len(h) : h[i].kind \in BadParams
+               THEN CHOOSE i \in 1..Len(h) : /\ h[i].kind \in BadParams
+                                             /\ \A j \in 1..(i - 1) : h[j].kind \notin BadParams
+               ELSE 0
+Raised == mode = "raised"
+
 (* the user's part of the simultaneous list: without the time axis Finish supplies *)
-UserEndo == IF done /\ ~HasUserT(hist) /\ Len(Endogenous) > 0 /\ Endogenous[Len(Endogenous)] = DefaultT
+UserEndo == IF done /\ ~Raised /\ ~HasUserT(hist) /\ Len(Endogenous) > 0 /\ Endogenous[Len(Endogenous)] = DefaultT
             THEN SubSeq(Endogenous, 1, Len(Endogenous) - 1) ELSE Endogenous
 
-N == Len(hist)
+N == IF FirstBad(hist) = 0 THEN Len(hist) ELSE FirstBad(hist) - 1      \* lines that count
 
 (* every well-formed line is in the list of its class and in no other *)
 C14_ExactlyOneClass ==
-    /\ Len(cls) = N
+    /\ Len(cls) = Len(hist)
     /\ \A i \in 1..N : WellFormed(hist[i]) => cls[i] = ExpClass(hist, i)
     /\ VarsOf(UserEndo) = VarsOf(Pick(hist, N, "sim"))
     /\ VarsOf(Lagged) = VarsOf(Pick(hist, N, "lag"))
@@ -279,14 +295,18 @@ C14_MeaningUnchanged ==
 TCount == CountVar(Endogenous, "t") + CountVar(Lagged, "t") + CountVar(Exogenous, "t")
 
 C14_TimeSupplied ==
-    done => /\ ~HasUserT(hist) => /\ Len(Endogenous) > 0
-                                  /\ Endogenous[Len(Endogenous)] = DefaultT
-                                  /\ TCount = 1
-            \* nothing is added to what the user wrote (whatever class the user's t is in)
-            /\ HasUserT(hist) => TCount = NumDefT(hist)
+    (done /\ ~Raised) =>
+        /\ ~HasUserT(hist) => /\ Len(Endogenous) > 0
+                              /\ Endogenous[Len(Endogenous)] = DefaultT
+                              /\ TCount = 1
+        \* nothing is added to what the user wrote (whatever class the user's t is in)
+        /\ HasUserT(hist) => TCount = NumDefT(hist)
 
 (* a malformed line adds one message and nothing else *)
 C14_MalformedReported ==
+    \* a run-parameter line with a malformed value is reported (the call raises) and read as nothing
+    /\ Raised <=> FirstBad(hist) # 0
+    /\ \A i \in 1..Len(hist) : i > N => cls[i] = (IF i = N + 1 THEN "reported" ELSE "skipped")
     /\ msgs = MsgsOf(hist, N)
     /\ \A i \in 1..N : hist[i].kind \in Malformed => cls[i] = "none"
 
@@ -301,7 +321,7 @@ C14_CommentsInert ==
     (~done /\ TotalLines < MaxLines) =>
         LET s == Cur IN \A f \in Commented : LineOp(s, f) = LineOp(s, NoComment(f))
 
-TypeOK == /\ mode \in {"endogenous", "exogenous"}
+TypeOK == /\ mode \in {"endogenous", "exogenous", "raised"}
           /\ foundT \in BOOLEAN /\ done \in BOOLEAN
           /\ Len(hist) <= MaxLines
           /\ \A i \in 1..Len(hist) : hist[i] \in LineForms
